@@ -7,6 +7,8 @@ git -C /repo diff --quiet || { echo "/repo is dirty"; exit 2; }
 git -C /repo apply /verif/seeded/$NAME/patch.diff || { echo "patch does not apply"; exit 2; }
 python3 tools/check.py $PROP --tier $TIER > /verif/.work/seed_${NAME}_${PROP}.log 2>&1; RC=$?
 git -C /repo checkout -- .
+# rebuild the harness from the restored tree so that a later --no-build run does not use the mutated library
+(cd /verif/harness && cargo build --release --offline >/dev/null 2>&1)
 echo "check $PROP on seed $NAME: exit=$RC"
 grep -E "^(VIOLATION|KNOWN|OK|TOOL-ERROR|MODEL-DIVERGENCE)" /verif/.work/seed_${NAME}_${PROP}.log | head -5
 grep -E "^  " /verif/.work/seed_${NAME}_${PROP}.log | head -3
